@@ -419,6 +419,8 @@ def model_violation(ck, name, r):
     return False
 
 
+NEGATIVE = {"popnofold": "Refines(PlainOD)", "shallowdeep": "CopyLaws", "movetoend": "FirstInsertionOrder",
+            "nofoldstore": "KeysLowerUnique"}
 JVM = {"JAVA_TOOL_OPTIONS": "-XX:ParallelGCThreads=2 -XX:CICompilerCount=2"}      # several TLCs side by side
 
 
@@ -445,6 +447,10 @@ def plan(tier, seed):
         jobs.append(("walk", "ci", "d40-%d" % i, walk_job("c17_w_ci_%d" % i, nw // nsplit, 40, seed * 100 + i + 1, cls="ci", pairs=2,
                                                           keys=KEYS_CI | {"classes", "Classes"})))
     jobs.append(("walk", "dod", "d40", walk_job("c17_w_dod", nwd, 40, seed * 100 + 50, cls="dod", pairs=2)))
+    # negative configs: deliberately wrong variants of the spec that TLC has to reject (non-vacuity of (M))
+    for bug in NEGATIVE:
+        jobs.append(("negative", "ci", bug, graph_job("c17_neg_%s" % bug, cls="ci", steps=3, pairs=1, bug=bug,
+                                                      keys={"a", "A", "layers", "LAYERS"}, setvals=("i1", "list"), pairvals=("i1",))))
     for j in jobs:
         j[3]["env"] = JVM
     return jobs
@@ -457,6 +463,12 @@ def work(args):
     rn = "%s-%s-%s" % (kind, cls, name)
     r = tlcx.run(**job)
     cov = {"transitions_replayed": 0, "walks": 0, "walk_steps": 0, "prefix_not_followed": 0}
+    if kind == "negative":
+        if r.violated != NEGATIVE[name]:
+            raise common.MachineryFailure("negative config %s: TLC reported %r, expected a violation of %s" % (name, r.violated, NEGATIVE[name]))
+        s = r.summary()
+        s["run"] = rn + " (wrong variant, rejected as expected)"
+        return {"tlc": s, "cov": cov, "violations": {}, "known": {}, "n": 0, "distinct": set(), "samples": []}
     if not model_violation(ck, rn, r):
         if kind == "graph":
             edges = [p for p in r.prints if isinstance(p, dict) and "pre" in p]
